@@ -101,7 +101,33 @@ def an_lineage(dialect, cat_text, text):
         return canon.err_kind(e)
 
 
+def an_lineage_seq(dialect, cat_text, texts):
+    """several statements on ONE TableLineageAnalyzer, as a program that keeps the analyzer around uses it"""
+    import contextlib, io
+    from metasequoia_sql.analyzer.data_linage.table_lineage_analyzer import TableLineageAnalyzer
+    try:
+        cat = parse_catalogue(cat_text)
+    except Exception:
+        return "BADREQ catalogue"
+    an = TableLineageAnalyzer(getter_class()(cat))
+    out = []
+    for text in texts:
+        try:
+            stmt = _first_statement(dialect, text)
+            kind = type(stmt).__name__
+            if kind not in ("ASTSingleSelectStatement", "ASTUnionSelectStatement", "ASTInsertSelectStatement"):
+                out.append("BADREQ statement"); continue
+            with contextlib.redirect_stdout(io.StringIO()):
+                res = an.get_insert_table_lineage(stmt).all_columns() if kind == "ASTInsertSelectStatement" else an.get_select_table_lineage(stmt).all_columns()
+            out.append("OK " + canon.dump(res))
+        except Exception as e:
+            out.append(canon.err_kind(e))
+    return " ;; ".join(out)
+
+
 def an(parts):
+    if len(parts) >= 5 and parts[1] == "lineage-seq":
+        return an_lineage_seq(parts[2], canon.unhex(parts[3]), [canon.unhex(h) for h in parts[4:]])
     if len(parts) == 5 and parts[1] == "lineage":
         return an_lineage(parts[2], canon.unhex(parts[3]), canon.unhex(parts[4]))
     if len(parts) == 5 and parts[1] == "columns":
